@@ -45,7 +45,7 @@ COMPUTED = [
 
 def cases(tier, seed):
     rng = random.Random(12000 + seed)
-    n = 140 if tier == "quick" else 1400
+    n = 140 if tier == "quick" else 900
     out = []
     for i in range(n):
         p = PROFILES[i % len(PROFILES)][0]
